@@ -264,6 +264,7 @@ class C20(Property):
         owned = []  # (caller object, index hint) added with the default copy
         derived = []  # (real derived emulsion, model snapshot)
         nocopy_ids = set()
+        link = None  # (array returned by get_linked_data, the droplet objects it was linked to)
 
         def fail(sig, msg):
             ctx.fail(f"emulsion:{sig}", msg)
@@ -367,6 +368,7 @@ class C20(Property):
                 if float(E[i].radius) != op["r"]:
                     fail("linked:write-not-reflected", f"writing radius {op['r']} into the linked array left droplet {i} at {E[i].radius}")
                     return
+                link = (data, list(E))  # kept: the link must survive whatever happens to the emulsion afterwards
                 del classes
             elif name == "merge":
                 if n < 2 or len({(e[0], str(e[1])) for e in M}) != 1 or M[0][0] == "PerturbedDroplet2D":
@@ -491,6 +493,15 @@ class C20(Property):
                 if not same(R, snap):
                     fail(f"derived-changed-after:{name}", f"step {step} ({name}): a copy/slice/sum obtained earlier changed")
                     return
+            if link is not None:
+                # documented for get_linked_data: the array mirrors the droplets it was linked to - for as long as those droplet
+                # objects are members of the emulsion, whatever was done to them through the emulsion or the droplets
+                arr, objs_l = link
+                members = {id(x) for x in E}
+                for row, o in zip(arr, objs_l):
+                    if id(o) in members and row.tobytes() != o.data.tobytes():
+                        fail(f"link-broken-after:{name}", f"step {step} ({name}): a row of the array obtained from get_linked_data no longer mirrors its droplet ({row} vs {o})")
+                        return
             if ctx.violations:
                 return
         self._emulsion_queries(E, M, spec, fail)
@@ -613,11 +624,14 @@ class C20(Property):
             if name in ("append", "append_time", "append_nocopy"):
                 em = Emulsion([mk(x) for x in op["ds"]])
                 entries = [enc(d) for d in em]
+                # the frame is handed over as an Emulsion, or as a plain list / tuple / generator of the same droplet objects
+                how = (len(op["ds"]) + n) % 4
+                frame = [em, list(em), tuple(em), (d for d in list(em))][how]
                 if name == "append":
-                    TC.append(em)
+                    TC.append(frame)
                     t = 0 if n == 0 else M[-1][0] + 1
                 elif name == "append_time":
-                    TC.append(em, op["t"])
+                    TC.append(frame, op["t"])
                     t = op["t"]
                 else:
                     TC.append(em, op["t"], copy=False)
